@@ -318,7 +318,7 @@ pub fn run(ctx: &Ctx) -> (Report, Meta) {
     .floor("children_run", 300)
     .floor("children_with_nonsuccess_status", 100)
     .floor("children_rhs_went_nonfinite", 60);
-    let n = ctx.size(936, 9_360);
+    let n = ctx.size(1_872, 187_200);
     let rep = par_for(n, "C04", |i, rep| {
         let case_id = format!("child/{}", i);
         if !ctx.want(&case_id) {
